@@ -288,6 +288,22 @@ def oracle_single(ck: core.Check) -> dict:
                     stats["vars_checked"] += st["checked"]
                     ck.count(("single", name, json.dumps(a, sort_keys=True), json.dumps(tys)) if st["checked"] else None)
                     report(ck, st["fails"], case)
+                # the same operator on a rank-unknown first input (shape erased by a runtime Reshape)
+                for s0 in ([["N"], ["N", 2], [2, 3], ["N", 2, 2]] if op.max_rank[0] >= 3 else [["N"], ["N", 2]]):
+                    shapes = [s0] + [ss[min(1, len(ss) - 1)] for ss in shape_sets[1:]]
+                    tys = [{"e": e, "s": s} for e, s in zip(elems, shapes)]
+                    case = {"kind": "single", "op": name, "attrs": a, "in": tys, "erase": True}
+                    st = P.run_single(case, rng, SIZES, max_inst=ck.pick(3, 8))
+                    stats["programs"] += 1
+                    if st["rejected"]:
+                        stats["constructor_rejected"] += 1
+                        continue
+                    stats["unknown_rank_programs"] = stats.get("unknown_rank_programs", 0) + 1
+                    stats["runs"] += st["runs"]
+                    stats["runs_refused_by_runtime"] += st["refused"]
+                    stats["vars_checked"] += st["checked"]
+                    ck.count(("single-erased", name, json.dumps(a, sort_keys=True), json.dumps(tys)) if st["checked"] else None)
+                    report(ck, st["fails"], case)
     return stats
 
 
@@ -373,10 +389,13 @@ def run(ck: core.Check):
 def replay(ck: core.Check, doc) -> bool:
     case = doc["case"]
     rng = random.Random(doc.get("seed", 0))
+    extra = []
+    if isinstance(case.get("failure"), dict) and case["failure"].get("feed"):
+        extra = [P.feed_from_json(case["failure"]["feed"])]  # the recorded input first
     if case.get("kind") == "single":
-        st = P.run_single(case, rng, SIZES, max_inst=8)
+        st = P.run_single(case, rng, SIZES, max_inst=8, extra_feeds=extra)
     elif case.get("kind") == "program":
-        st = P.run_program(case, SIZES, max_inst=6)
+        st = P.run_program(case, SIZES, max_inst=6, extra_feeds=extra)
     elif case.get("kind") == "witness":
         st = P.run_witness(case)
     else:
